@@ -7,7 +7,7 @@ from .guards import as_comparison
 from .rules_state import fkey
 
 FACTORIES = {"dsplib::create_fft_plan": "BaseFftPlanC", "dsplib::create_rfft_plan": "BaseFftPlanR"}
-CACHE_METHODS = {"exists", "get", "put"}
+CACHE_METHODS = {"exists", "get", "put", "operator[]", "at", "find"}
 LIST_ADD = {"push_front", "push_back", "emplace_front", "emplace_back", "insert", "emplace"}
 LIST_DEL = {"erase", "pop_back", "pop_front", "remove", "remove_if", "clear"}
 MAP_ADD = {"insert", "emplace", "try_emplace", "insert_or_assign"}
@@ -134,6 +134,68 @@ def rule_K1(prog, fixture=False):
         if puts:
             res.add(key0 + ":put-value", DISCHARGED if okput else VIOLATED, "%s:%d" % (prog.rel(f.file), puts[0].line),
                     "%s cached value" % f.short, "the plan built by the factory for '%s' is what is inserted" % pn if okput else why, func=f.name)
+    # K1c: the cache hands out no mutable access to a slot, and nobody keeps a reference into it
+    for cn, cj in sorted(prog.classes.items()):
+        if not cn.startswith("dsplib::LRUCache<"):
+            continue
+        for m in cj["methods"]:
+            if m["kind"] != "method" or m["access"] != "public" or m["implicit"]:
+                continue
+            ret = m.get("sig", "").split("(")[0].strip()
+            key = "K1:cache-api:%s::%s" % (cn, m["name"])
+            where = "%s:%d" % (prog.rel(cj["file"]), m["line"])
+            mutable_ref = (ret.endswith("&") or ret.endswith("*")) and not ret.startswith("const ")
+            iterator = "iterator" in ret and "const_iterator" not in ret
+            if mutable_ref or iterator:
+                res.add(key, VIOLATED, where, "%s::%s" % (cn, m["name"]),
+                        "public member returns %s: a caller can keep mutable access to a cache slot across operations that "
+                        "re-enter the cache (plan construction does) and then writes into a slot that was reused for another key" % ret)
+            else:
+                res.add(key, DISCHARGED, where, "%s::%s" % (cn, m["name"]), "returns %s" % (ret or "void"))
+    for f in prog.functions.values():
+        if f.file.endswith("coverage.cc") or (f.cls or "").startswith("dsplib::LRUCache<"):
+            continue
+        for n in f.walk():
+            if not (n.is_call() and n.callee and n.callee.get("cls", "").startswith("dsplib::LRUCache<")):
+                continue
+            rt = n.type or ""
+            if not n.get("lv"):
+                continue        # returned by value
+            # where does the reference go?
+            p = n.parent
+            copied = False
+            escapes = None
+            while p is not None:
+                if p.k == "ImplicitCastExpr" and p.get("ck") == "LValueToRValue":
+                    copied = True
+                    break
+                if p.k in ("CXXConstructExpr",) and not (p.type or "").endswith("&"):
+                    copied = True       # copy-constructs a value
+                    break
+                if p.k == "VarDecl":
+                    ts = p.get("ts") or p.type or ""
+                    if ts.endswith("&") or ts.endswith("&&"):
+                        escapes = "bound to the reference variable '%s'" % p.decl["n"]
+                    else:
+                        copied = True
+                    break
+                if p.k == "ReturnStmt":
+                    if (f.get("ret") or "").endswith("&"):
+                        escapes = "returned by reference from %s" % f.short
+                    else:
+                        copied = True
+                    break
+                if p.k == "CtorInit":
+                    escapes = None
+                    copied = True
+                    break
+                if p.k in ("CXXMemberCallExpr", "CXXOperatorCallExpr", "CallExpr", "BinaryOperator", "CompoundStmt"):
+                    copied = True       # used within the full expression
+                    break
+                p = p.parent
+            if escapes:
+                res.add("K1:cache-ref-escape:%s" % fkey(f), VIOLATED, "%s:%d" % (prog.rel(f.file), n.line), f.short,
+                        "a reference into the cache (%s) is %s: after eviction of that key it dangles" % (n.text(), escapes), func=f.name)
     # holders keep shared ownership
     holders = 0
     for cn, cj in sorted(prog.classes.items()):
@@ -208,6 +270,42 @@ def _container_effects(fn, list_field, map_field):
     return out
 
 
+def _path_sums(f, eff, limit=4000):
+    """(list delta, map delta, effect nodes) for every acyclic path ENTRY -> EXIT of the CFG (back edges cut)"""
+    f.blocks
+    per_block = {}
+    for (n, cont, d) in eff:
+        loc = f.block_of(n)
+        if loc is None:
+            continue
+        per_block.setdefault(loc[0], []).append((loc[1], n, cont, d))
+    out = []
+    truncated = False
+    stack = [(f.entry, (f.entry,), 0, 0, ())]
+    while stack:
+        b, seen, l, m, nodes = stack.pop()
+        for (_, n, cont, d) in sorted(per_block.get(b, []), key=lambda t: t[0]):
+            if cont == "list":
+                l += d
+            else:
+                m += d
+            nodes = nodes + (n,)
+        if b == f.exit:
+            out.append((l, m, list(nodes)))
+            if len(out) > limit:
+                truncated = True
+                break
+            continue
+        succs = [s_ for s_ in f.blocks[b].succs if s_ is not None and s_ in f.blocks]
+        if not succs:
+            out.append((l, m, list(nodes)))
+        for s_ in succs:
+            if s_ in seen:
+                continue          # back edge: one iteration is enough for balance
+            stack.append((s_, seen + (s_,), l, m, nodes))
+    return out, truncated
+
+
 def _region_of(n):
     """innermost control region: the branch statement (then/else/body) that directly holds the statement"""
     x = n
@@ -226,9 +324,9 @@ def _region_of(n):
 
 
 def rule_K2(prog, fixture=False):
-    res = RuleResult("K2", "in every LRUCache method each removal from the recency list is paired, in the same control region, with a "
-                           "removal from the key map and each insertion with an insertion (splice is neutral): the map never holds "
-                           "an iterator to an erased list node")
+    res = RuleResult("K2", "in every LRUCache method, on every acyclic path, the number of entries added to / removed from the "
+                           "recency list equals the number added to / removed from the key map (splice is neutral): the map never "
+                           "holds an iterator to an erased list node")
     classes = [c for n, c in prog.classes.items() if n.startswith("dsplib::LRUCache<")]
     if not classes:
         res.broken.append("anchor vanished: no LRUCache instantiation")
@@ -247,20 +345,18 @@ def rule_K2(prog, fixture=False):
             if not eff:
                 res.add(key, DISCHARGED, where, f.short, "does not add or remove entries", func=f.name)
                 continue
-            regions = {}
-            for (n, cont, d) in eff:
-                r = _region_of(n)
-                regions.setdefault(r, {"list": 0, "map": 0, "nodes": []})
-                regions[r][cont] += d
-                regions[r]["nodes"].append(n)
-            bad = [(r, v) for r, v in regions.items() if v["list"] != v["map"]]
-            if bad:
-                r, v = bad[0]
-                res.add(key, VIOLATED, "%s:%d" % (prog.rel(f.file), v["nodes"][0].line), f.short,
-                        "in the %s-region at line %d the recency list changes by %+d entries but the key map by %+d (%s): the two "
-                        "structures get out of step" % (r[1], r[2] or f.line, v["list"], v["map"], "; ".join(x.text() for x in v["nodes"])), func=f.name)
+            paths, truncated = _path_sums(f, eff)
+            bad = [(l, m, nodes) for (l, m, nodes) in paths if l != m]
+            if truncated:
+                res.add(key, UNMODELLED, where, f.short, "too many paths to enumerate", func=f.name)
+            elif bad:
+                l, m, nodes = bad[0]
+                res.add(key, VIOLATED, "%s:%d" % (prog.rel(f.file), nodes[0].line if nodes else f.line), f.short,
+                        "on the path through %s the recency list changes by %+d entries but the key map by %+d: the two structures "
+                        "get out of step (a stale list iterator stays in the map, or an entry becomes unreachable)"
+                        % ("; ".join("%s (line %d)" % (x.text(), x.line) for x in nodes) or "no update", l, m), func=f.name)
             else:
-                res.add(key, DISCHARGED, where, f.short, "%d region(s), list and map updates paired" % len(regions), func=f.name)
+                res.add(key, DISCHARGED, where, f.short, "%d acyclic path(s), list and map deltas equal on each" % len(paths), func=f.name)
     return res
 
 
